@@ -79,6 +79,9 @@ static void check_wf(int ncols, int nrows)
 	ASSERT(O->nzcount == nz, "C06 view: the nonzero count equals the number of stored coefficients");
 }
 #ifdef FN_addcol
+/* every array has room for one more column in this group: no growth step is expected (excluded by construction and asserted
+ * unreachable, like the cut of matrix_addrow_end in the addrow groups) */
+void *realloc(void *p, size_t n) { __CPROVER_assert(0, "addcol/room1: no array growth is expected (room for one more column everywhere)"); __CPROVER_assume(0); return p; }
 /* ---- mpq_ILLlib_addcol (lib.c, REAL, with the real static matrix_addcol) from the same start state ----
  * The new column: cnt <= 1 entries with an arbitrary row index (possibly invalid), arbitrary objective coefficient and
  * bounds, a name that may collide.  No basis is passed.
